@@ -640,7 +640,12 @@ def c04_r6(ctx):
             ctx.check(good_, f"codegen::ClassDefNamesVisitor.visit_Name::quoted={quoted}", f"visit_Name on a {'quoted' if quoted else 'plain'} name does {sets}; the flag must be raised exactly for quoted names "
                       "(never lowered: one plain name after a forward reference would hide it)", mh.loc(), okmsg=f"visit_Name: {'quoted name -> flag raised' if quoted else 'plain name -> flag untouched'}")
     init_v = mh.methods.get("__init__")
-    st_ = {norm(x.targets[0]): norm(x.value) for x in ast.walk(init_v.node) if isinstance(x, ast.Assign)} if init_v is not None else {}
+    st_ = {}
+    for x in (ast.walk(init_v.node) if init_v is not None else []):
+        if isinstance(x, ast.Assign):
+            st_[norm(x.targets[0])] = norm(x.value)
+        elif isinstance(x, ast.AnnAssign) and x.value is not None:
+            st_[norm(x.target)] = norm(x.value)
     ctx.check(st_.get("self.found_name_with_quote") == "False", "codegen::ClassDefNamesVisitor.__init__::flag", f"a fresh finder must start with the flag lowered: {st_}", mh.loc(), okmsg="finder starts with the flag lowered")
     mf = repo.func("codegen:model_has_forward_refs")
     outs_ = Interp(mf, lambda e: None, is_effect=lambda c: isinstance(c.func, ast.Attribute) and c.func.attr == "visit").run()
